@@ -20,6 +20,7 @@ import (
 //	restore                                                   RestoreToGenesis (storage bootstrapper after a failed reload); the own chain is empty again
 //	resetprob / resetfork / forced / check
 //	recv with T=k (k>0: twin B, k<0: twin A) delivers the batch to that twin |k| events later than to the other twin
+//	notar with T=k: the same for a notarization callback (only across resetprob / resetfork / tick / check / setrb)
 const (
 	flagBadTimestamp = 1
 	flagProposed     = 2
@@ -99,6 +100,10 @@ func genC20(r *simkit.Rand, tier string) *simkit.Plan {
 	pShift := 0.0
 	if r.Chance(0.6) {
 		pShift = 0.03 + r.Float64()*0.2 // few shifts per run: the twins are compared only while none is outstanding
+	}
+	pEarlyNotar := 0.0
+	if r.Chance(0.4) {
+		pEarlyNotar = 0.05 + r.Float64()*0.25
 	}
 	pRestore := 0.0
 	if r.Chance(0.15) {
@@ -245,9 +250,45 @@ func genC20(r *simkit.Rand, tier string) *simkit.Plan {
 			emit(simkit.Step{Op: "rollback"})
 			own = own[:len(own)-1]
 		}
+		// a lagging node: the metachain's notarization of the NEXT block arrives before the node processed it,
+		// often followed by a recovery call (sync failed too often / forced rollback) before the block is processed
+		preferred := -1
+		if !meta && r.Chance(pEarlyNotar) {
+			for _, h := range hdrs {
+				if h.parent == head() && h.round <= cur && !h.bad {
+					preferred = h.id
+					break
+				}
+			}
+			if preferred >= 0 {
+				h := hdrs[preferred]
+				st := simkit.Step{Op: "notar", I: []int64{1, int64(h.nonce), int64(h.round)}, B: []simkit.HexBytes{h.hash}}
+				nReset := 0
+				if r.Chance(0.75) {
+					nReset = r.Range(1, 2)
+				}
+				if nReset > 0 && r.Chance(0.7) {
+					st.T = nReset + r.Intn(2)
+					if r.Chance(0.5) {
+						st.T = -st.T
+					}
+				}
+				emit(st)
+				for ; nReset > 0; nReset-- {
+					emit(simkit.Step{Op: []string{"resetprob", "resetprob", "resetfork"}[r.Intn(3)]})
+				}
+				if st.T != 0 && r.Chance(0.3) {
+					emit(simkit.Step{Op: "check"})
+				}
+			}
+		}
 		// process the next block(s)
-		for k := r.Range(1, 2); k > 0 && r.Chance(pProc); k-- {
+		for k := r.Range(1, 2); k > 0 && (r.Chance(pProc) || preferred >= 0); k-- {
 			var cands []int
+			if preferred >= 0 && hdrs[preferred].parent == head() {
+				cands = append(cands, preferred)
+			}
+			preferred = -1
 			for _, h := range hdrs {
 				if h.parent != head() || h.round > cur || h.bad {
 					continue
@@ -310,7 +351,11 @@ func genC20(r *simkit.Rand, tier string) *simkit.Plan {
 					for _, o := range own {
 						onOwn = onOwn || o == h.id
 					}
-					if received[h.id] && !onOwn {
+					headNonce := baseNonce
+					if head() >= 0 {
+						headNonce = hdrs[head()].nonce
+					}
+					if received[h.id] && !onOwn && h.nonce > headNonce {
 						cands = append(cands, h.id)
 					}
 				}
